@@ -254,7 +254,8 @@ func (t *T) NegGoroutineWrites() {
 	go func() { t.a = 1 }()
 }
 
-func (t *T) NegMethodValue() {
+// a method value called under the lock: analysed as a call of the method under the caller's locks
+func (t *T) PosMethodValue() {
 	t.mu.Lock()
 	defer t.mu.Unlock()
 	f := t.helper
@@ -438,6 +439,27 @@ func (t *T) PosDerivedValueOnlyReturned() (int, int) {
 		return v, n
 	}
 	return n, v
+}
+
+func (t *T) each(f func(int)) {
+	for _, v := range t.list {
+		f(v)
+	}
+}
+
+// a method of the receiver handed over as a callback
+func (t *T) PosMethodValueAsCallback() {
+	t.mu.Lock()
+	defer t.mu.Unlock()
+	t.each(t.helper)
+}
+
+func (t *T) NegMethodValueCallbackWithoutLock() { t.each(t.helper) }
+
+func (t *T) NegMethodValueReturned() func(int) {
+	t.mu.Lock()
+	defer t.mu.Unlock()
+	return t.helper
 }
 
 // ---- embedded struct: promoted fields and methods ---------------------------------------------------------
